@@ -703,8 +703,6 @@ var engineAssumptions = []string{
 
 func (r *CheckRun) extraEvidence(ev map[string]interface{}) {}
 
-func (r *CheckRun) tryReplay(a *AggObl, replayPath string) bool { return false }
-
 // cmdSweepGen generates (without solving) a VC for every module function: an engine self-test.
 func cmdSweepGen(args []string) int {
 	fs := flag.NewFlagSet("sweepgen", flag.ExitOnError)
